@@ -240,6 +240,7 @@ type cmap4 []cmapEntry16
 func newCmap4(cm tables.CmapSubtable4) (cmap4, error) {
 	segCount := len(cm.EndCode)
 	out := make(cmap4, segCount)
+	resolved := 0 // total number of resolved indexes: at most one per 16-bit code point in a valid table
 	for i := range out {
 		entry := cmapEntry16{
 			end:   cm.EndCode[i],
@@ -251,7 +252,12 @@ func newCmap4(cm tables.CmapSubtable4) (cmap4, error) {
 		// some fonts use 0xFFFF for idRangeOff for the last segment
 		if entry.start != 0xFFFF && idRangeOffset != 0 {
 			// we resolve the indexes
-			entry.indexes = make([]tables.GlyphID, entry.end-entry.start+1)
+			count := int(entry.end - entry.start + 1)
+			resolved += count
+			if resolved > 0x10000 {
+				return nil, errors.New("invalid cmap subtable format 4 overlapping segments")
+			}
+			entry.indexes = make([]tables.GlyphID, count)
 			indexStart := idRangeOffset/2 + i - segCount
 			if indexStart < 0 || len(cm.GlyphIDArray) < 2*(indexStart+len(entry.indexes)) {
 				return nil, errors.New("invalid cmap subtable format 4 glyphs array length")
